@@ -9,8 +9,6 @@ Users u1/u2 are real accounts, `ghost` is not in the password file.
 """
 from __future__ import annotations
 
-import asyncio
-
 from .c18_front import ACCOUNTS, FrontWorld
 from .c18_model import Nfa
 
